@@ -15,7 +15,7 @@
    case_variant lower upper a c := lower a = lower c /\ upper a = upper c  (what is_case_variant computes).
    toks_ok n toks is the C02 token invariant: spans in bounds of a text of length n, ordered,
    disjoint, word-like tokens non-empty.  History/C18History.v: the code before 41fa706 (FC18a/FC18b). *)
-Require Import Base Overlap Tables_lexer Lexer Condense LexerProofs C18LexStable C18PassesIC C18LexDots.
+Require Import Base Overlap Tables_lexer Lexer Condense LexerProofs C18LexStable C18PassesIC C18LexDots C18LexAlnum.
 Require Import Base Tables_titlecase TitleCase TitleCaseProofs C18History C18Str C18StrProofs.
 From Coq Require Import Sorting.Sorted Lia.
 
@@ -614,6 +614,115 @@ Check C18_str_title_case_dotted : forall u lower upper is_lowercase dict_canon d
     title_case_str u lower upper is_lowercase dict_canon dict_meta out = Ok out.
 Print Assumptions C18_str_title_case_dotted.
 
+(* ================= phase 5: DIGITS, periods and the straight apostrophe ================= *)
+(* lex_number does not see the ASCII case of letters (the only letter of the float grammar is the exponent mark,
+   read as `e` or `E`): for ANY Unicode tables and ANY two texts related by Rl — no class, no pattern.  Unbounded:
+   parse_f64 / longest_float by induction over the related texts *)
+Theorem C18_lex_number_case_blind : forall u (s s' : text), Forall2 (Rl u) s s' -> lex_number u s' = lex_number u s.
+Proof. exact lex_number_congr. Qed.
+Check C18_lex_number_case_blind : forall u (s s' : text), Forall2 (Rl u) s s' -> lex_number u s' = lex_number u s.
+Print Assumptions C18_lex_number_case_blind.
+
+(* THE LEXER HALF WITH DIGITS AND THE APOSTROPHE, for ANY Unicode tables.  Alnum u s: every character is a word
+   character (not an ASCII digit), an ASCII digit the tables call numeric, a blank, a punctuation / quote character
+   other than  @ : [ ’ ‘ ＇  — PERIOD AND STRAIGHT APOSTROPHE ALLOWED —, or a character no sub-lexer claims; and at no
+   position that follows the start of the text or a character that is NOT a word character (look-behind; the lexer never
+   starts a token at an ASCII letter or digit right after a word character: alnum_lex_binv inside the proof) one of
+     Q_plural  [A-Za-z0-9][sS] + LA, first character a DIGIT, or lex_hostname_token answers from there (= FC18c)
+     Q_apos    [A-Za-z0-9]'[sS] + LA
+     Q_hex     0[xX][0-9A-Fa-f]
+   where LA = end of text or a character that is neither a word character nor a digit.  Then PlainEnglish::parse and
+   Document::new_plain_english give the same tokens for two such texts related by Rl (number payloads included).
+   Every pattern is witnessed by a pair the lexer cuts differently (C18_alnum_patterns_witnessed) *)
+Theorem C18_lex_alnum_stable : forall u (s s' : text),
+  Forall2 (Rl u) s s' -> Alnum u s -> Alnum u s' ->
+  plain_parse u s' = plain_parse u s /\ document_plain u s' = document_plain u s.
+Proof. exact lex_alnum_stable. Qed.
+Check C18_lex_alnum_stable : forall u (s s' : text),
+  Forall2 (Rl u) s s' -> Alnum u s -> Alnum u s' ->
+  plain_parse u s' = plain_parse u s /\ document_plain u s' = document_plain u s.
+Print Assumptions C18_lex_alnum_stable.
+
+(* the class contains the plain class of phase 3 and the dotted class of phase 4 *)
+Theorem C18_alnum_contains_plain_dotted : forall u (s : text),
+  plain_text u s = true \/ dotted_text u s = true -> alnum_text u s = true.
+Proof. exact alnum_contains. Qed.
+Check C18_alnum_contains_plain_dotted : forall u (s : text),
+  plain_text u s = true \/ dotted_text u s = true -> alnum_text u s = true.
+Print Assumptions C18_alnum_contains_plain_dotted.
+
+(* H_relex PROVED for case-stable texts of the class; the output is in the class again *)
+Theorem C18_str_relex_alnum : forall u lower upper is_lowercase dict_canon dict_meta (src out : text),
+  lower_ascii_law lower -> upper_ascii_law upper -> apostrophes_caseless lower upper ->
+  ascii_case_faithful lower upper -> dict_meta_case_insensitive lower upper dict_meta ->
+  alnum_stable_text u lower upper src ->
+  title_case_str u lower upper is_lowercase dict_canon dict_meta src = Ok out ->
+  document_tokens u dict_meta out = document_tokens u dict_meta src /\ alnum_text u out = true.
+Proof. exact str_relex_alnum. Qed.
+Check C18_str_relex_alnum : forall u lower upper is_lowercase dict_canon dict_meta (src out : text),
+  lower_ascii_law lower -> upper_ascii_law upper -> apostrophes_caseless lower upper ->
+  ascii_case_faithful lower upper -> dict_meta_case_insensitive lower upper dict_meta ->
+  alnum_stable_text u lower upper src ->
+  title_case_str u lower upper is_lowercase dict_canon dict_meta src = Ok out ->
+  document_tokens u dict_meta out = document_tokens u dict_meta src /\ alnum_text u out = true.
+Print Assumptions C18_str_relex_alnum.
+
+(* IDEMPOTENCE of make_title_case_str on the class — no premise about the lexer or the tokens *)
+Theorem C18_str_idempotent_alnum : forall u lower upper is_lowercase dict_canon dict_meta (src out : text),
+  lower_ascii_law lower -> upper_ascii_law upper -> apostrophes_caseless lower upper ->
+  lowercase_fixed lower is_lowercase -> apostrophes_lower_fixed lower -> ascii_case_faithful lower upper ->
+  dict_case_insensitive lower upper is_lowercase dict_canon dict_meta ->
+  dict_meta_case_insensitive lower upper dict_meta ->
+  alnum_stable_text u lower upper src ->
+  title_case_str u lower upper is_lowercase dict_canon dict_meta src = Ok out ->
+  title_case_str u lower upper is_lowercase dict_canon dict_meta out = Ok out.
+Proof. exact str_idempotent_alnum. Qed.
+Check C18_str_idempotent_alnum : forall u lower upper is_lowercase dict_canon dict_meta (src out : text),
+  lower_ascii_law lower -> upper_ascii_law upper -> apostrophes_caseless lower upper ->
+  lowercase_fixed lower is_lowercase -> apostrophes_lower_fixed lower -> ascii_case_faithful lower upper ->
+  dict_case_insensitive lower upper is_lowercase dict_canon dict_meta ->
+  dict_meta_case_insensitive lower upper dict_meta ->
+  alnum_stable_text u lower upper src ->
+  title_case_str u lower upper is_lowercase dict_canon dict_meta src = Ok out ->
+  title_case_str u lower upper is_lowercase dict_canon dict_meta out = Ok out.
+Print Assumptions C18_str_idempotent_alnum.
+
+(* the WHOLE property text, about strings, for a text of the class *)
+Theorem C18_str_title_case_alnum : forall u lower upper is_lowercase dict_canon dict_meta (src : text),
+  lower_ascii_law lower -> upper_ascii_law upper -> apostrophes_caseless lower upper ->
+  ascii_variant_closed lower upper -> lowercase_fixed lower is_lowercase -> apostrophes_lower_fixed lower ->
+  ascii_case_faithful lower upper ->
+  dict_case_insensitive lower upper is_lowercase dict_canon dict_meta ->
+  (forall w cc, dict_canon w = Some cc -> length w <= length cc) ->
+  dict_meta_case_insensitive lower upper dict_meta ->
+  alnum_stable_text u lower upper src ->
+  exists out,
+    title_case_str u lower upper is_lowercase dict_canon dict_meta src = Ok out /\
+    length out = length src /\
+    (forall k c, nth_error out k = Some c -> exists a, nth_error src k = Some a /\ case_variant lower upper a c) /\
+    (forall toks w0 rest, document_tokens u dict_meta src = Ok toks -> filter tok_word_like toks = w0 :: rest ->
+       exists a c, nth_error src (tstart w0) = Some a /\ nth_error out (tstart w0) = Some c /\
+                   is_ascii_lower c = false /\ (is_ascii_alpha a = true -> is_ascii_upper c = true)) /\
+    title_case_str u lower upper is_lowercase dict_canon dict_meta out = Ok out.
+Proof. exact str_property_alnum. Qed.
+Check C18_str_title_case_alnum : forall u lower upper is_lowercase dict_canon dict_meta (src : text),
+  lower_ascii_law lower -> upper_ascii_law upper -> apostrophes_caseless lower upper ->
+  ascii_variant_closed lower upper -> lowercase_fixed lower is_lowercase -> apostrophes_lower_fixed lower ->
+  ascii_case_faithful lower upper ->
+  dict_case_insensitive lower upper is_lowercase dict_canon dict_meta ->
+  (forall w cc, dict_canon w = Some cc -> length w <= length cc) ->
+  dict_meta_case_insensitive lower upper dict_meta ->
+  alnum_stable_text u lower upper src ->
+  exists out,
+    title_case_str u lower upper is_lowercase dict_canon dict_meta src = Ok out /\
+    length out = length src /\
+    (forall k c, nth_error out k = Some c -> exists a, nth_error src k = Some a /\ case_variant lower upper a c) /\
+    (forall toks w0 rest, document_tokens u dict_meta src = Ok toks -> filter tok_word_like toks = w0 :: rest ->
+       exists a c, nth_error src (tstart w0) = Some a /\ nth_error out (tstart w0) = Some c /\
+                   is_ascii_lower c = false /\ (is_ascii_alpha a = true -> is_ascii_upper c = true)) /\
+    title_case_str u lower upper is_lowercase dict_canon dict_meta out = Ok out.
+Print Assumptions C18_str_title_case_alnum.
+
 (* ---------- non-vacuity ---------- *)
 (* "the wordpress of a" -> "The WordPress of A" over an example dictionary that finds words by their
    folded form: EVERY hypothesis of every theorem above holds on it (the seven laws for all
@@ -794,3 +903,64 @@ Example C18_case_stable_needed :
   document_plain toy_uni [42963%N] = Ok [Lexer.mktok (mkspan 0 1) Lexer.KWord] /\
   document_plain toy_uni [42962%N] = Ok [Lexer.mktok (mkspan 0 1) Lexer.KUnlintable].
 Proof. exact case_stable_needed. Qed.
+
+(* phase 5.  The closure of the class holds for the ASCII restriction + example dictionary (all characters);
+   "the 2nd wordpress isn't v1.5e3. a.b 0xg 1e5 of 3'sa" is in the class, neither plain nor dotted, has Number tokens,
+   its title case differs from it, is a fixed point, yields the same document tokens and is in the class again *)
+Example C18_alnum_nonvacuous :
+  ascii_case_faithful ex_lower ex_upper /\ alnum_case_closed ascii_uni ex_lower ex_upper /\
+  alnum_stable_text ascii_uni ex_lower ex_upper alnum_src /\
+  exists out,
+    plain_text ascii_uni alnum_src = false /\ dotted_text ascii_uni alnum_src = false /\ alnum_text ascii_uni alnum_src = true /\
+    title_case_str ascii_uni ex_lower ex_upper ex_islower ex_canon ex_meta alnum_src = Ok out /\ out <> alnum_src /\
+    title_case_str ascii_uni ex_lower ex_upper ex_islower ex_canon ex_meta out = Ok out /\
+    document_tokens ascii_uni ex_meta out = document_tokens ascii_uni ex_meta alnum_src /\
+    alnum_text ascii_uni out = true /\
+    existsb (fun t => match tkind_ t with KNumber => true | _ => false end)
+            (match document_tokens ascii_uni ex_meta alnum_src with Ok ts => ts | Panic _ => [] end) = true.
+Proof.
+  split; [exact ex_ascii_case_faithful|]. split; [exact ex_alnum_case_closed|]. split; [exact ex_alnum_stable|].
+  exact ex_alnum_run.
+Qed.
+
+(* two texts of the class related by Rl: "1e5 john's a.b 2nd" and "1E5 JOHN'S A.B 2ND" lex alike (a float with an exponent,
+   a possessive after a word character, a hostname, a suffix); lex_number alone: "2e3x" / "2E3X" *)
+Example C18_lex_alnum_nonvacuous :
+  let s := [49; 101; 53; 32; 106; 111; 104; 110; 39; 115; 32; 97; 46; 98; 32; 50; 110; 100]%N in
+  let s' := [49; 69; 53; 32; 74; 79; 72; 78; 39; 83; 32; 65; 46; 66; 32; 50; 78; 68]%N in
+  alnum_text ascii_uni s = true /\ alnum_text ascii_uni s' = true /\
+  forallb (fun p => (fst p =? snd p)%N || (wch ascii_uni (fst p) && wch ascii_uni (snd p) && (ickey (fst p) =? ickey (snd p))%N))
+          (combine s s') = true /\
+  plain_parse ascii_uni s' = plain_parse ascii_uni s /\ s' <> s /\
+  existsb (fun t => match Lexer.tkind_of t with Lexer.KNumber _ => true | _ => false end)
+          (match plain_parse ascii_uni s with Ok ts => ts | Panic _ => [] end) = true /\
+  lex_number ascii_uni [50; 69; 51; 88]%N = lex_number ascii_uni [50; 101; 51; 120]%N /\
+  lex_number ascii_uni [50; 101; 51; 120]%N <> None.
+Proof. cbv zeta. repeat split; try (vm_compute; reflexivity); try discriminate. Qed.
+
+(* EVERY EXCLUDED PATTERN IS WITNESSED by two texts related by ASCII case that PlainEnglish::parse cuts differently:
+   `1s` / `1S` (Q_plural, digit), `as.b` / `AS.B` (Q_plural, hostname = FC18c), `a's` / `A'S` (Q_apos), `0x1` / `0X1` (Q_hex) *)
+Example C18_alnum_patterns_witnessed :
+  (forallb (char3 ascii_uni) [49; 115]%N = true /\ q_plural ascii_uni [49; 115]%N = true /\
+   plain_parse ascii_uni [49; 83]%N <> plain_parse ascii_uni [49; 115]%N) /\
+  (forallb (char3 ascii_uni) [97; 115; 46; 98]%N = true /\ q_plural ascii_uni [97; 115; 46; 98]%N = true /\
+   plain_parse ascii_uni [65; 83; 46; 66]%N <> plain_parse ascii_uni [97; 115; 46; 98]%N) /\
+  (forallb (char3 ascii_uni) [97; 39; 115]%N = true /\ q_apos ascii_uni [97; 39; 115]%N = true /\
+   plain_parse ascii_uni [65; 39; 83]%N <> plain_parse ascii_uni [97; 39; 115]%N) /\
+  (forallb (char3 ascii_uni) [48; 120; 49]%N = true /\ q_hex [48; 120; 49]%N = true /\
+   plain_parse ascii_uni [48; 88; 49]%N <> plain_parse ascii_uni [48; 120; 49]%N).
+Proof. exact alnum_patterns_witnessed. Qed.
+
+(* what the class admits beyond the dotted class without digits (`as-is`, `as.b.`: the hostname clause is stated with
+   lex_hostname_token itself) and through the look-behind (`john's`, `this.is`, `mp3s`); the same patterns at the start
+   of the text or after a blank stay excluded.  Both FC18c witnesses are outside *)
+Example C18_alnum_refines :
+  (alnum_text ascii_uni [97; 115; 45; 105; 115]%N = true /\ dotted_text ascii_uni [97; 115; 45; 105; 115]%N = false /\
+   alnum_text ascii_uni [97; 115; 46; 98; 46]%N = true /\ dotted_text ascii_uni [97; 115; 46; 98; 46]%N = false /\
+   alnum_text ascii_uni [106; 111; 104; 110; 39; 115]%N = true /\
+   alnum_text ascii_uni [116; 104; 105; 115; 46; 105; 115]%N = true /\ dotted_text ascii_uni [116; 104; 105; 115; 46; 105; 115]%N = false /\
+   alnum_text ascii_uni [109; 112; 51; 115]%N = true /\
+   alnum_text ascii_uni [32; 97; 39; 115]%N = false /\ alnum_text ascii_uni [105; 115; 46; 105; 115]%N = false /\
+   alnum_text ascii_uni [32; 51; 115]%N = false) /\
+  alnum_text ascii_uni ref_src = false /\ alnum_text ascii_uni wit_src = false.
+Proof. split; [exact alnum_refines_dotted|]. split; vm_compute; reflexivity. Qed.
